@@ -1,6 +1,7 @@
 package props
 
 import (
+	"go/types"
 	"fmt"
 	"go/ast"
 	"strings"
@@ -77,7 +78,7 @@ func C13(c *Ctx) {
 		"(ii) in the MsgServer method every instruction that can lead to a store write/delete or bank movement is guarded (cut-reachability over the CFG, looking through bool/error helpers) by the entitlement predicate over that same field: whitelist membership, membership in params.EntSigners, equality with the stored Owner of the registration named in the message, or equality of req.Authority with the keeper authority; " +
 		"for streams, every access to the stream section and every bank transfer reachable from the handler is instantiated up the call chain and must use key (addr(msg.Receiver), addr(msg.Sender)) and pay/debit the party the operation belongs to; " +
 		"(iii) A5 wiring: the four custom keepers receive NewModuleAddress(gov) as authority and store it unchanged; SetPubKey/SigVerification/IncrementSequence decorators are in the ante chain; legacy NewHandler closures only forward to the MsgServer. Quantifies over all paths and call sites; signature cryptography is trusted."
-	r.Rules = []string{"A7.getsigners", "A2.entitlement-guard", "A7.stream-roles", "A5.authority-wiring", "A5.sig-decorators", "A1.legacy-handler", "A6.entitlement-from-state"}
+	r.Rules = []string{"A7.getsigners", "A2.entitlement-guard", "A7.stream-roles", "A5.authority-wiring", "A5.sig-decorators", "A3.decorator-continues", "A1.legacy-handler", "A6.entitlement-from-state"}
 	r.Trusted = []string{"cosmos-sdk x/auth ante: SigVerificationDecorator verifies GetSigners() signatures", "baseapp message routing to registered MsgServer"}
 	r.NotDecided = []string{"signature verification itself", "state may change between check and use within one handler (ignored)"}
 
@@ -110,6 +111,7 @@ func C13(c *Ctx) {
 
 	authorityWiring(c)
 	sigDecorators(c)
+	decoratorsContinue(c)
 	legacyHandlers(c)
 	// entitlement is decided from committed state only: nothing a handler or decorator consults can have
 	// been remembered in a module object by a branch that was later discarded (simulate, CheckTx, failed proposal)
@@ -140,6 +142,14 @@ func getSigners(c *Ctx, row entRow, h *ssa.Function) {
 	}
 	sum := w.Summary(gs)
 	res := sum.Args[0]
+	// the slice may be built by a helper shared by several messages: look inside
+	for i := 0; i < 3 && res.Op == "call" && res.Callee != nil; i++ {
+		x := w.Inline(res)
+		if x == nil {
+			break
+		}
+		res = x
+	}
 	ok := false
 	if res.Op == "list" && len(res.Args) == 1 {
 		ok = true
@@ -426,6 +436,37 @@ func authorityParamIndex(c *Ctx, fullName string) int {
 		}
 	}
 	return -1
+}
+
+// decoratorsContinue (A3.decorator-continues): a decorator of the chain that returns successfully without
+// calling next() ends the ante chain there: signature verification, sequence increment and fee deduction
+// (all later in the chain) never run for that transaction, so a message naming its entitled signer is
+// executed for anyone. Every success-capable return of each repo decorator must pass the call of its
+// continuation parameter.
+func decoratorsContinue(c *Ctx) {
+	w, r := c.W, c.R
+	n := 0
+	for _, dec := range w.RootSet("ANTE") {
+		if len(dec.Params) == 0 {
+			continue
+		}
+		nextP := dec.Params[len(dec.Params)-1]
+		if _, isFn := nextP.Type().Underlying().(*types.Signature); !isFn {
+			continue
+		}
+		n++
+		isNext := func(in ssa.Instruction) bool {
+			call, ok := in.(ssa.CallInstruction)
+			return ok && call.Common().Value == ssa.Value(nextP)
+		}
+		bad := w.MustPass(dec, isNext, nil)
+		where := w.Pos(dec.Pos())
+		if len(bad) > 0 {
+			where = pos(c, bad[0])
+		}
+		r.Require(len(bad) == 0, "A3.decorator-continues", fn(dec), where, "every successful path of a chain decorator hands the transaction on to next() (signature verification runs later in the chain)", fmt.Sprintf("%d success return(s) end the chain without calling next()", len(bad)))
+	}
+	r.Floor("repo decorators in the ante chain", n, 3)
 }
 
 func sigDecorators(c *Ctx) {
